@@ -42,7 +42,7 @@ theorem bulk_segment_reads (ns : List BulkNode) (es : List BulkEdge) (hv : bulkV
                 [.manifestSwitch 0 [0] 1, .checkpoint 0 0 1, .commitTx 0],
         i2e := ns.map (fun n => ⟨n.ext, ((bulkInterner ns es).getId n.label).getD 0⟩),
         segStore := [(buildForward 0 (bulkEdges ns es)).persist],
-        store := bulkStore ns es, vecs := [] } := by
+        store := bulkStore ns es, storeRoot := 1, vecs := [] } := by
     unfold bulkLoad; rw [hv]; rfl
   refine ⟨_, (buildForward 0 (bulkEdges ns es)).persist, hb, rfl, ?_, ?_, ?_⟩
   · rw [(persist_forward _).2.2.2.2]
